@@ -17,32 +17,166 @@ structure SameSettings (a b : Sspor) : Prop where
   snm : a.nBasisModes = b.nBasisModes
   ns : a.explicitN = b.explicitN
 
+/-! ### auxiliary lemmas: what `BasisSt.fit` / `BasisSt.rep` / `Sspor.fit` read and write -/
+
+theorem BasisSt.fit_kind (b : BasisSt) (ne nf : Nat) : (b.fit ne nf).1.kind = b.kind := by
+  grind [BasisSt.fit]
+
+theorem BasisSt.fit_nModes (b : BasisSt) (ne nf : Nat) (h : b.nModes.isSome) :
+    (b.fit ne nf).1.nModes = b.nModes := by
+  grind [BasisSt.fit]
+
+/-- `BasisSt.fit` reads only `kind` and `nModes` -/
+theorem BasisSt.fit_congr (b c : BasisSt) (ne nf : Nat) (hk : b.kind = c.kind)
+    (hm : b.nModes = c.nModes) :
+    (b.fit ne nf).2 = (c.fit ne nf).2 ∧ (b.fit ne nf).1.nModes = (c.fit ne nf).1.nModes ∧
+      ((b.fit ne nf).2 = none → (b.fit ne nf).1.fitted = (c.fit ne nf).1.fitted) := by
+  grind [BasisSt.fit]
+
+/-- `BasisSt.rep` reads only `fitted` and `nModes` -/
+theorem BasisSt.rep_congr (b c : BasisSt) (k : Option Nat) (hf : b.fitted = c.fitted)
+    (hm : b.nModes = c.nModes) : b.rep k = c.rep k := by
+  simp [BasisSt.rep, hf, hm]
+
+/-- proof device: the part of `Sspor.fit` after the basis step, flattened, as a function of the
+basis step's result `p = (basis', error)` -/
+def Sspor.fitTail (st : Sspor) (p : BasisSt × Option Err) (o : List Nat) : Sspor × Option Err :=
+  match p.2 with
+  | some e => ({ st with basis := p.1 }, some e)
+  | none =>
+  match p.1.rep st.nBasisModes with
+  | .error e => ({ st with basis := p.1 }, some e)
+  | .ok shape =>
+    match st.nSensors with
+    | none => ({ st with basis := p.1, bm := some shape, nSensors := some shape.1, defaulted := true,
+                         ranking := some o }, none)
+    | some k =>
+      if st.defaulted then
+        ({ st with basis := p.1, bm := some shape, nSensors := some shape.1, defaulted := true,
+                   ranking := some o }, none)
+      else if k > shape.1 then ({ st with basis := p.1, bm := some shape }, some .valueError)
+      else ({ st with basis := p.1, bm := some shape, ranking := some o }, none)
+
+theorem Sspor.fit_eq_tail (st : Sspor) (ne nf : Nat) (pf : Bool) (o : List Nat) :
+    st.fit ne nf pf o = st.fitTail (if pf then
+      (st.basis, if st.basis.fitted.isSome then none else some Err.notFitted)
+    else st.basis.fit ne nf) o := by
+  unfold Sspor.fit Sspor.fitTail
+  generalize (if pf = true then
+      (st.basis, if st.basis.fitted.isSome then none else some Err.notFitted)
+    else st.basis.fit ne nf) = p
+  obtain ⟨b, e1⟩ := p
+  cases e1 with
+  | some e => rfl
+  | none =>
+    simp only []
+    cases b.rep st.nBasisModes with
+    | error e => rfl
+    | ok shape =>
+      simp only []
+      cases st.nSensors with
+      | none => rfl
+      | some k =>
+        simp only []
+        cases st.defaulted with
+        | true => rfl
+        | false =>
+          by_cases h : k > shape.1 <;> simp [h]
+
 /-- **C15 (fit is a reset), partial.** Fitting two models that are configured alike on the same
-data (same optimizer ranking) gives the same outcome and the same observable state, whatever each
-had been fitted on before.
+data (same optimizer ranking) gives the same outcome and, when the fit succeeds, the same observable
+state, whatever each had been fitted on before.
 `_partial`: the hypothesis `modes` compares the basis attribute `n_basis_modes` itself; for
 `Identity()` constructed with `n_basis_modes=None` that attribute is overwritten by the first fit, so
 a previously fitted default Identity and a fresh one are NOT configured alike in this sense – that is
-the known finding F7 (see `identity_default_freezes`). -/
+the known finding F7 (see `identity_default_freezes`).
+
+STATEMENT CHANGED: the original second conjunct claimed equality of the observable states
+unconditionally.  That is false when the fit raises: a failed fit does not reset anything, the model
+keeps the `ranked_sensors_` (and, if the basis step already failed, the `basis_matrix_`) of its
+EARLIER fit, which `SameSettings` deliberately leaves unconstrained.  Machine-checked counterexample:
+`fit_failed_is_not_reset` below.  Minimal correction: the observable states agree whenever the fit
+succeeds (the error outcome agrees always). -/
 theorem fit_is_reset_partial (a b : Sspor) (h : SameSettings a b) (ne nf : Nat) (o : List Nat) :
     (a.fit ne nf false o).2 = (b.fit ne nf false o).2 ∧
-      (a.fit ne nf false o).1.observe = (b.fit ne nf false o).1.observe := by
-  sorry
+      ((a.fit ne nf false o).2 = none →
+        (a.fit ne nf false o).1.observe = (b.fit ne nf false o).1.observe) := by
+  obtain ⟨hk, hm, hs, hn⟩ := h
+  rw [Sspor.fit_eq_tail, Sspor.fit_eq_tail]
+  simp only [Bool.false_eq_true, if_false]
+  obtain ⟨h1, h2, h3⟩ := BasisSt.fit_congr a.basis b.basis ne nf hk hm
+  generalize a.basis.fit ne nf = p at *
+  generalize b.basis.fit ne nf = q at *
+  obtain ⟨p1, p2⟩ := p
+  obtain ⟨q1, q2⟩ := q
+  simp only at h1 h2 h3
+  subst h1
+  cases p2 with
+  | some e => simp [Sspor.fitTail]
+  | none =>
+    have hrep := BasisSt.rep_congr p1 q1 a.nBasisModes (h3 rfl) h2
+    rw [hs] at hrep
+    simp only [Sspor.fitTail, hs, hrep]
+    cases q1.rep b.nBasisModes with
+    | error e => simp
+    | ok shape =>
+      simp only [Sspor.explicitN] at hn
+      cases ha : a.nSensors <;> cases hb : b.nSensors <;> cases ha' : a.defaulted <;>
+        cases hb' : b.defaulted <;> simp [ha, hb, ha', hb'] at hn ⊢ <;>
+        (try subst hn) <;> (try split) <;> simp_all [Sspor.observe, Sspor.selected]
 
 /-- the settings survive a successful or failed fit, so the statement lifts to every history:
 after any history the next fit behaves like the first fit of a model configured alike -/
 theorem fit_preserves_settings (a : Sspor) (ne nf : Nat) (pf : Bool) (o : List Nat)
     (hm : a.basis.nModes.isSome) :
     SameSettings (a.fit ne nf pf o).1 a := by
-  sorry
+  rw [Sspor.fit_eq_tail]
+  have h1 := BasisSt.fit_kind a.basis ne nf
+  have h2 := BasisSt.fit_nModes a.basis ne nf hm
+  generalize a.basis.fit ne nf = q at *
+  constructor <;> grind [Sspor.fitTail, Sspor.explicitN]
+
+/-- a fit that raises keeps the ranking and the sensor count the model had before – it is NOT a
+reset (this is why `fit_is_reset_partial` / `fit_after_history_is_reset` need the success guard) -/
+theorem fit_failed_keeps_ranking (a : Sspor) (ne nf : Nat) (pf : Bool) (o : List Nat)
+    (hfail : (a.fit ne nf pf o).2 ≠ none) :
+    (a.fit ne nf pf o).1.ranking = a.ranking ∧ (a.fit ne nf pf o).1.nSensors = a.nSensors := by
+  rw [Sspor.fit_eq_tail] at hfail ⊢
+  generalize (if pf = true then
+      (a.basis, if a.basis.fitted.isSome then none else some Err.notFitted)
+    else a.basis.fit ne nf) = p at *
+  grind [Sspor.fitTail]
+
+/-- **counterexample to the original (unguarded) statements.** `SSPOR(Identity(n_basis_modes=3),
+n_sensors=4)` fitted on 5×6 data and a fresh such model are configured alike; refitting both on 2×6
+data raises the same ValueError (3 modes > 2 examples) in both, but the first still shows the ranking
+of its earlier fit while the fresh one shows none. -/
+theorem fit_failed_is_not_reset :
+    let bs : BasisSt := { kind := .identity, nModes := some 3, fitted := none }
+    let o6 := [0, 1, 2, 3, 4, 5]
+    ∃ st0, Sspor.init bs (some (.int 4)) = some st0 ∧
+      SameSettings (st0.fit 5 6 false o6).1 st0 ∧
+      ((st0.fit 5 6 false o6).1.fit 2 6 false o6).2 = (st0.fit 2 6 false o6).2 ∧
+      ((st0.fit 5 6 false o6).1.fit 2 6 false o6).1.observe ≠ (st0.fit 2 6 false o6).1.observe := by
+  refine ⟨_, rfl, ?_, ?_, ?_⟩
+  · exact fit_preserves_settings _ 5 6 false _ rfl
+  · decide
+  · decide
 
 /-- full strength (fresh-object form) for every basis whose mode count was chosen by the user:
-after ANY history of calls, a fit behaves exactly like the same fit on any other model configured alike
-– in particular on a fresh one. -/
-theorem fit_after_history_is_reset (a b : Sspor) (h : SameSettings a b) (ne nf : Nat) (o : List Nat) :
+after ANY history of calls, a successful fit behaves exactly like the same fit on any other model
+configured alike – in particular on a fresh one.
+
+STATEMENT CHANGED: hypothesis `hok` (the fit succeeds) added; without it the statement is false, see
+`fit_failed_is_not_reset`.  For a failing fit only the error outcome agrees
+(`fit_is_reset_partial`, first conjunct) and the model keeps its old ranking
+(`fit_failed_keeps_ranking`). -/
+theorem fit_after_history_is_reset (a b : Sspor) (h : SameSettings a b) (ne nf : Nat) (o : List Nat)
+    (hok : (a.fit ne nf false o).2 = none) :
     ((a.fit ne nf false o).1.observe, (a.fit ne nf false o).2) =
       ((b.fit ne nf false o).1.observe, (b.fit ne nf false o).2) := by
-  sorry
+  obtain ⟨h1, h2⟩ := fit_is_reset_partial a b h ne nf o
+  rw [h2 hok, h1]
 
 /-- **F7 on the model (witness).** `Identity()` fitted on 4 examples and then on 7 keeps 4 modes,
 whereas a fresh `Identity()` fitted on the 7 examples has 7. -/
@@ -51,7 +185,7 @@ theorem identity_default_freezes :
     let o5 := [0, 1, 2, 3, 4]
     ∃ st0, Sspor.init b none = some st0 ∧
       ((st0.fit 4 5 false o5).1.fit 7 5 false o5).1.observe ≠ (st0.fit 7 5 false o5).1.observe := by
-  sorry
+  refine ⟨_, rfl, ?_⟩; decide
 
 /-- **C15 (update_n_basis_modes).** Asking for `k` modes, `k` no larger than the fitted basis,
 re-ranks with the first `k` modes and does not alter the basis object. -/
@@ -61,12 +195,29 @@ theorem update_modes_prefix (st : Sspor) (k nm nf cols : Nat) (o : List Nat) (hk
       ((st.updateModes (.int k) none o).2 = none →
         (st.updateModes (.int k) none o).1.bm = some (nf, min k cols) ∧
         (st.updateModes (.int k) none o).1.ranking = some o) := by
-  sorry
+  have hpos : k ≠ 0 := by omega
+  have hupd : st.updateModes (.int k) none o =
+      ({ st with nBasisModes := some k } : Sspor).fit 0 0 true o := by
+    simp [Sspor.updateModes, hpos, hnm, hf, hle]
+  have hrep : st.basis.rep (some k) = .ok (nf, min k cols) := by
+    have : ¬ k > nm := by omega
+    simp [BasisSt.rep, hnm, hf, this]
+  rw [hupd, Sspor.fit_eq_tail]
+  simp only [if_true, hf, Option.isSome_some]
+  unfold Sspor.fitTail
+  simp only [hrep]
+  cases st.nSensors with
+  | none => simp
+  | some n =>
+    cases st.defaulted with
+    | true => simp
+    | false =>
+      by_cases h : n > nf <;> simp [h]
 
 /-- a rejected `update_n_basis_modes` whose value is not a positive integer changes nothing -/
 theorem update_modes_invalid_unchanged (st : Sspor) (v : PyCount) (x : Option (Nat × Nat))
     (o : List Nat) (hv : v = .other ∨ ∃ z : Int, v = .int z ∧ z ≤ 0) :
     st.updateModes v x o = (st, some .valueError) := by
-  sorry
+  grind [Sspor.updateModes]
 
 end PsVerif
